@@ -28,7 +28,8 @@ type c17Cfg struct {
 	CtxDL bool `json:"ctxdl"`          // caller passes a context with its own (longer) deadline
 	Msgs  int  `json:"msgs,omitempty"` // messages per send (default 1)
 	// Follow: history — after the stalled call has returned, the same Client is used once more while the server
-	// stays silent: 1 Reset, 2 Send, 3 Close. That call must be bounded as well.
+	// stays silent: 1 Reset, 2 Send, 3 Close, 4 DialWithContext again (the new connection is answered at once). That call
+	// must be bounded as well.
 	Follow int `json:"follow,omitempty"`
 	// Fallback (TLS=starttls only): the Client uses WithTLSPortPolicy(opportunistic), the dial to the primary port is
 	// refused and the stalls hit the connection to the fallback port
@@ -51,7 +52,7 @@ var (
 	c17TLS    = []string{"none", "starttls", "implicit"}
 	c17Auth   = []string{"none", "PLAIN", "LOGIN", "SCRAM-SHA-256"}
 	c17Entry  = []string{"DialWithContext", "DialAndSend", "Send", "Reset", "Send(after idle hour)"}
-	c17Follow = []string{"", "Reset", "Send", "Close"}
+	c17Follow = []string{"", "Reset", "Send", "Close", "DialWithContext(again)"}
 	c17Tmo    = 7 * time.Second
 	c17Slack  = 1500 * time.Millisecond
 )
@@ -168,6 +169,16 @@ func c17Exec(r *vf.Run, cfg c17Cfg, c *vf.Chooser) (keys, whats []string) {
 		if cfg.Fallback {
 			n-- // primary port refused
 		}
+		if n == 1 && cfg.Follow == 4 {
+			// the re-dial of the follow-up call meets a server that answers at once
+			fresh := refsmtp.NewConn(&refsmtp.Session{Host: hx.Host, Caps: caps})
+			fresh.TLSConfig = hx.ServerTLS(hx.Mat().Good)
+			fresh.S.NewAuth = saslFactory(fresh, c19User, c19Pass, &sasl.Trace{})
+			if cfg.TLS == 2 {
+				fresh.ImplicitTLS = true
+			}
+			return fresh
+		}
 		if n != 0 {
 			return nil
 		}
@@ -277,6 +288,8 @@ func c17Exec(r *vf.Run, cfg c17Cfg, c *vf.Chooser) (keys, whats []string) {
 				fErr = cl.Send(c17Msgs(cfg)...)
 			case 3:
 				fErr = cl.Close()
+			case 4:
+				fErr = cl.DialWithContext(context.Background())
 			}
 		})
 		fname := fmt.Sprintf("%s-after-timed-out-%s", c17Follow[cfg.Follow], entry)
@@ -371,7 +384,7 @@ func init() {
 	vf.Register(&vf.Check{
 		ID: "C17", Title: "every network operation is bounded by the configured timeout",
 		Run: func(r *vf.Run) {
-			r.SetRule("one stall (server silent, connection open) at every command position of the dialogue — greeting, EHLO, STARTTLS, inside the TLS handshake, every AUTH step, NOOP, MAIL, each RCPT, DATA, mid-content (server stops reading), end-of-data, RSET, QUIT — × TLS mode {none, STARTTLS, implicit} × auth {none, PLAIN, LOGIN, SCRAM-SHA-256} × entry point {DialWithContext, DialAndSend, Send, Reset, Send after an idle hour} × caller context with/without own deadline × Client with/without WithoutNoop() × (STARTTLS) the connection to the fallback port after the primary port refused × (real loopback sockets, the Client's own dialer — for implicit TLS its own TLS dialer) a server that accepts the connection and stays silent, judged only by whether the call returns at all × history {none, then Reset / Send / Close on the same Client while the server stays silent}; oracle is logical: whenever the client blocks on the silent peer a deadline must be armed on the connection and, on the connection's virtual clock (advanced by every wait the client sat through), end <= call start + timeout + 1.5 s — for EVERY wait of the call, so re-arming after a timeout and waiting again is seen; distinct by (configuration, stall position)")
+			r.SetRule("one stall (server silent, connection open) at every command position of the dialogue — greeting, EHLO, STARTTLS, inside the TLS handshake, every AUTH step, NOOP, MAIL, each RCPT, DATA, mid-content (server stops reading), end-of-data, RSET, QUIT — × TLS mode {none, STARTTLS, implicit} × auth {none, PLAIN, LOGIN, SCRAM-SHA-256} × entry point {DialWithContext, DialAndSend, Send, Reset, Send after an idle hour} × caller context with/without own deadline × Client with/without WithoutNoop() × (STARTTLS) the connection to the fallback port after the primary port refused × (real loopback sockets, the Client's own dialer — for implicit TLS its own TLS dialer) a server that accepts the connection and stays silent, judged only by whether the call returns at all × history {none, then Reset / Send / Close / a new DialWithContext on the same Client while the server stays silent}; oracle is logical: whenever the client blocks on the silent peer a deadline must be armed on the connection and, on the connection's virtual clock (advanced by every wait the client sat through), end <= call start + timeout + 1.5 s — for EVERY wait of the call, so re-arming after a timeout and waiting again is seen; distinct by (configuration, stall position)")
 			r.Assume("net.Conn deadline semantics as documented (a blocked Read/Write returns at the armed deadline; with none armed it never returns)",
 				"the caller's context is not a bound: the property promises the configured timeout",
 				"idle time is simulated by skewing the connection's clock by one hour")
@@ -391,7 +404,7 @@ func init() {
 								cfgs = append(cfgs, c17Cfg{TLS: tlsm, Auth: a, Entry: e, Fallback: true})
 							}
 							if !cd && (a <= 1 || r.Thorough) {
-								for f := 1; f <= 3; f++ {
+								for f := 1; f <= 4; f++ {
 									cfgs = append(cfgs, c17Cfg{TLS: tlsm, Auth: a, Entry: e, Follow: f})
 								}
 							}
@@ -451,7 +464,7 @@ func init() {
 					r.Reached(fmt.Sprintf("reached/stall/entry=%s/tls=%s", e, t))
 				}
 			}
-			r.Reached("reached/real-socket-silent-server/tls=none", "reached/real-socket-silent-server/tls=implicit", "reached/stall-inside-handshake", "reached/write-side-stall", "reached/caller-context-with-deadline", "reached/after-idle-hour", "reached/stall-on-the-fallback-connection", "follow/Reset/blocks=0", "follow/Send/blocks=0", "follow/Close/blocks=0")
+			r.Reached("reached/real-socket-silent-server/tls=none", "reached/real-socket-silent-server/tls=implicit", "reached/stall-inside-handshake", "reached/write-side-stall", "reached/caller-context-with-deadline", "reached/after-idle-hour", "reached/stall-on-the-fallback-connection", "follow/Reset/blocks=0", "follow/Send/blocks=0", "follow/Close/blocks=0", "follow/DialWithContext(again)/blocks=0")
 		},
 		Replay: func(r *vf.Run, kase json.RawMessage) {
 			var k c17Case
